@@ -96,6 +96,7 @@ def rand_protocol(rnd, three_parties=False):
     """A random protocol grammar of the family (no empty interaction; no optional first element under * / +)."""
     parties = ["A", "B", "C"] if three_parties else ["A", "B"]
     types = []
+    addr = {}
 
     def fresh(snd=None):
         if types and rnd.random() < 0.3:
@@ -106,6 +107,9 @@ def rand_protocol(rnd, three_parties=False):
         # the fuzzer-side party A takes part in every message: a message between two external parties is invisible to it
         snd = snd or rnd.choice(parties)
         rcp = rnd.choice([p for p in parties if p != snd]) if snd == "A" else "A"
+        # one recipient per (sender, type): the forecast is keyed by sender and type, so two options that differ in the
+        # recipient only collapse into one (recorded finding F40, replayed as a pinned witness)
+        rcp = addr.setdefault((snd, t), rcp)
         return msg(snd, rcp, t)
 
     def node(depth):
@@ -120,6 +124,7 @@ def rand_protocol(rnd, three_parties=False):
         return gen.rep(node(depth - 1), lo, hi)
     for _ in range(300):
         types.clear()
+        addr.clear()
         rules = {"<start>": gen.cat(fresh("A"), node(2), node(1))}
         if rnd.random() < 0.5:
             rules["<sess>"] = gen.cat(fresh(), gen.rep(node(1), 0, 2), fresh())
@@ -235,6 +240,9 @@ def run(tier, seed):
     n = 60 if tier == "quick" else 600
     for k in range(n):
         gs[len(gs) + 1] = rand_protocol(rnd, three_parties=(k % 3 == 2))
+    # pinned witness F40: after A>C:m1 B>A:m2 the grammar allows A>B:m2 and A>C:m2 (same sender and type, two recipients)
+    gs[9001] = dict(assign_ids({"start": "<start>", "types": ["m1", "m2"], "rules": {"<start>": gen.cat(
+        msg("A", "C", "m1"), msg("B", "A", "m2"), gen.rep(msg("A", "B", "m2"), 0, 1), msg("A", "C", "m2"))}}), pinned="F40")
     maxd = 5 if tier == "quick" else 6
     # the same protocols sliced to the fuzzer-side party (every third one), gid + 1000
     sliced = {}
@@ -273,6 +281,10 @@ def run(tier, seed):
     total = 0
     for job, (cnt, viol) in zip(jobs, pmap(_walk, jobs)):
         total += cnt
+        if "A:C:m1> <B:A:m2> <A:B:m2>? <A:C:m2>" in job[0]:
+            if viol:
+                rep.violation("witness:F40:two-recipients", "pinned witness: " + viol[0][1], viol[0][2])
+            continue
         for v in viol:
             rep.violation(*v)
     if total < 300:
